@@ -4,6 +4,7 @@ from __future__ import annotations
 import ast
 from itertools import combinations
 
+from kvstatic.paths import cz, czs
 from kvstatic.core import Repo, Report, ModelError, AnchorError, norm
 from kvstatic import techdsl
 from kvstatic.astutil import (find_all, attr_chain, is_name, call_name, body_no_doc, target_names, parents, enclosing,
@@ -133,7 +134,7 @@ def pickle_rules(rep, cmod):
         rep.ob('C10.pickle', f'state[{k!r}]', ok, sample={'rule': 'C10.pickle', 'key': k, 'value': value_of(k)})
         if not ok:
             rep.violate('C10.pickle', cmod, g, defs.get(keys.get(k), g), f"__getstate__: state['{k}'] must be {want}, found {value_of(k)}", node=defs.get(keys.get(k)) or g)
-    body = [norm(x).replace(' ', '').replace('\n', '') for x in body_no_doc(s)]
+    body = [cz(x) for x in body_no_doc(s)]
     want_seq = ["self.name=state['name']", 'self.nodes=IndexList()', 'self.lines=IndexList()', 'self.io_nodes=GrowingList()', 'self.cells={}', 'self.forks={}',
                 "forsinstate['nodes']:Node(self,*s)",
                 "fordriver,driver_pin,reader,reader_pininstate['lines']:Line(self,(self.nodes[driver],driver_pin),(self.nodes[reader],reader_pin))",
@@ -162,10 +163,17 @@ def pickle_rules(rep, cmod):
 def copy_rules(rep, cmod):
     rep.rule('C10.copy', 'copy: nodes in index order with (name, kind); each endpoint looked up in forks/cells by its own kind; explicit pins from the source line; io_nodes appended in order')
     f = cmod.func('Circuit.copy')
-    body = [norm(x).replace(' ', '').replace('\n', '') for x in body_no_doc(f)]
+    body = [cz(x) for x in body_no_doc(f)]
     exp = ['c=Circuit(self.name)', 'fornodeinself.nodes:Node(c,node.name,node.kind)',
            "forlineinself.lines:d=c.forks[line.driver.name]ifline.driver.kind=='__fork__'elsec.cells[line.driver.name]r=c.forks[line.reader.name]ifline.reader.kind=='__fork__'elsec.cells[line.reader.name]Line(c,(d,line.driver_pin),(r,line.reader_pin))",
-           "fornodeinself.io_nodes:ifnode.kind=='__fork__':n=c.forks[node.name]else:n=c.cells[node.name]c.io_nodes.append(n)",
+           czs("""
+               for node in self.io_nodes:
+                   if node.kind == '__fork__':
+                       n = c.forks[node.name]
+                   else:
+                       n = c.cells[node.name]
+                   c.io_nodes.append(n)
+               """),
            'returnc']
     names = ['new circuit', 'node copy', 'line copy with explicit pins', 'io_nodes copy', 'return']
     for i, (w, nm) in enumerate(zip(exp, names)):
@@ -190,7 +198,7 @@ def copy_rules(rep, cmod):
 def elim_rules(rep, cmod):
     rep.rule('C10.elim', 'eliminate_1to1_forks: snapshot iteration; io forks and forks with len(outs) != 1 skipped; the input line receives the removed line\'s (reader, reader_pin) and the back-reference')
     f = cmod.func('Circuit.eliminate_1to1_forks')
-    body = [norm(x).replace(' ', '').replace('\n', '') for x in body_no_doc(f)]
+    body = [cz(x) for x in body_no_doc(f)]
     loops = [st for st in body_no_doc(f) if isinstance(st, ast.For)]
     ok = len(loops) == 1 and norm(loops[0].iter).replace(' ', '') == 'list(self.forks.values())'
     rep.ob('C10.elim', 'iterates list(self.forks.values())', ok)
@@ -198,7 +206,7 @@ def elim_rules(rep, cmod):
         rep.violate('C10.elim', cmod, f, loops[0].iter if loops else f.name, 'eliminate_1to1_forks must iterate a snapshot list(self.forks.values()) because it removes forks while iterating', node=loops[0] if loops else f)
     if not loops:
         return
-    lb = [norm(x).replace(' ', '').replace('\n', '') for x in loops[0].body]
+    lb = [cz(x) for x in loops[0].body]
     n = loops[0].target.id
     need = [f'if{n}inios:continue', f'iflen({n}.outs)!=1:continue', f'in_line={n}.ins[0]', f'out_line={n}.outs[0]', 'out_reader=out_line.reader',
             'out_reader_pin=out_line.reader_pin', f'{n}.remove()', 'out_line.remove()', 'in_line.reader=out_reader', 'in_line.reader_pin=out_reader_pin',
@@ -225,7 +233,7 @@ def elim_rules(rep, cmod):
 def resolve_rules(rep, cmod):
     rep.rule('C10.resolve', 'resolve_tlib_cells iterates a snapshot of nodes and substitutes the library implementation of the node kind')
     f = cmod.func('Circuit.resolve_tlib_cells')
-    body = [norm(x).replace(' ', '').replace('\n', '') for x in body_no_doc(f)]
+    body = [cz(x) for x in body_no_doc(f)]
     ok = body == ['forninlist(self.nodes):ifn.kindintlib.cells:self.substitute(n,tlib.cells[n.kind][0])']
     rep.ob('C10.resolve', 'resolve_tlib_cells', ok)
     if not ok:
@@ -271,8 +279,14 @@ def substitute_rules(rep, repo, cmod):
         if not ok:
             rep.violate('C10.pins', cmod, f, f'{k} = {pre.get(k)}', f'substitute: {k} must be {want[0]} so that the k-th instance pin is zipped with the k-th implementation port in io_nodes order', node=f)
     # designated cell search
-    dc_ok = any(norm(st).replace(' ', '').replace('\n', '') ==
-                f"iflen(impl_out_lines)>0:n=impl_out_lines[0].driverwhilen.kind=='__fork__'andnnotinios:n=n.ins[0].driverdesignated_cell=n" for st in body)
+    dc_want = czs("""
+        if len(impl_out_lines) > 0:
+            n = impl_out_lines[0].driver
+            while n.kind == '__fork__' and n not in ios:
+                n = n.ins[0].driver
+            designated_cell = n
+        """)
+    dc_ok = any(cz(st) == dc_want for st in body)
     rep.ob('C10.sub-shape', 'designated cell = first non-fork driver behind the first output', dc_ok)
     if not dc_ok:
         raise ModelError('Circuit.substitute: designated-cell search not recognised')
